@@ -160,6 +160,7 @@ TRUSTED_BASE = [
     "before-after comparison alone; ob.get(...) on a spec that is not a mapping is None here (CPython raises AttributeError) and a "
     "non-iterable `fields` iterates as empty (CPython raises TypeError): the equality for apply_obligations is stated for documented specs "
     "(plainSpec); by hand remains DecisionLogger (sampling, priority of the redaction sets, size bound, the except fall-back)",
+    "for the translated local ReBAC checker rbacx/rebac/local.py (C12): the TYPED translator harness/pytolean_rebac.py and the meanings in lean/Rbacx/Model/PyRebac.lean, validated against CPython on every run (Run/SrcEvalRebac.lean: check, batch_check and every helper on the real store / checker); the trusted readings are: TYPES FROM ANNOTATIONS — str/int/bool/tuple/list/set/dict/`| None` are String/Int/Bool/products/List/PySet/Dict/Option, the frozen dataclass RelTuple is a structure generated from its fields, a This/ComputedUserset/TupleToUserset instance, a list of rule values, None or anything else is PyR.Obj (isinstance = constructor test, a field read behind it); the equalities speak about arguments of the annotated types; `while queue:` is PyR.whileRet on the tuple (clock counter, and the variables bound before the loop that the body assigns or mutates) with a budget (that Rebac.fuelBound suffices is a theorem), a body `return` ends the loop; queue.pop(0)/append, seen.add, memo[k] = v on locals bound once to a fresh []/set()/{} are rebinding; a set is the duplicate-free list of its members seen only through `in`/`.add`; a generator is the list of its yields, `for` inside it is flatMap, the recursion of _expand is well-founded on the size of the expression (proved at definition); self.<index>.setdefault(k, []).append(t) in `add` is state passing on the store value (the lists are created by the store and only read elsewhere; values, not references: a store or rule map mutated during a call is not represented); `context` is ERASED and the caveat registry is an OUTCOME TABLE name -> unregistered | raises | truth value of bool(pred(context)) (user code, external; calling None raises TypeError = raises), `try: … bool(pred(context)) … except Exception` is a match on that outcome and nothing else in the try body can raise; logger calls are dropped; time.perf_counter_ns() is the next element of a reading sequence `clock : Nat -> Int` (counter threaded through the loop state); in batch_check the method self.check is NOT unfolded but a parameter chk j = the result of the j-th call (the model's batchLoop has the same parameter; batch_check_model composes it with the translated check under per-call clocks); constructor defaults are not applied (callers pass every argument); the plugin test-compiles its own rendering (cached) and reports text that does not elaborate as a failed extraction",
 ]
 
 
